@@ -4,6 +4,9 @@ A plan ({"config": ..., "ops": [...]}) is interpreted against a real
 HeapBalancerSink / ApertureBalancerSink built from its Builder over harness
 channels and a harness server-set provider, next to a reference model.
 """
+import collections
+import math
+
 import gevent
 from gevent.queue import Queue
 
@@ -271,7 +274,34 @@ class LBRun(object):
       s1 = lb._size
       L = self.gauge('load_average')
       self.n_adjust += 1
+      now_ = loop.now()
+      hist = self.load_samples
+      v_ = lb._total
+      if hist['first'] is None:
+        hist['first'] = now_
+        hist['lo'] = hist['hi'] = v_
+      hist['lo'], hist['hi'] = min(hist['lo'], v_), max(hist['hi'], v_)
+      hist['n'] += 1
+      # sliding-window minimum / maximum over the last 30 s (monotonic deques)
+      for dq, worse in ((hist['minq'], lambda a, b: a >= b), (hist['maxq'], lambda a, b: a <= b)):
+        while dq and worse(dq[-1][1], v_):
+          dq.pop()
+        dq.append((now_, v_))
+        while dq[0][0] < now_ - 30.0:
+          dq.popleft()
       if s0 > 0 and L is not None:
+        # any exponential smoothing with a 5 s constant is a weighted mean of the totals sampled at each event in
+        # which everything older than 30 s weighs at most e^-6: the published value lies in the range of the last
+        # 30 s of samples, widened by e^-6 x the range of all samples
+        rlo, rhi = hist['minq'][0][1], hist['maxq'][0][1]
+        old = hist['first'] < now_ - 30.0
+        eps = (math.exp(-6.0) * (hist['hi'] - hist['lo']) if old else 0.0) + 1e-6
+        avg_ = L * s0
+        if old:
+          self.flags.add('smoothing_checked_with_history_older_than_30s')
+        if not (rlo - eps <= avg_ <= rhi + eps):
+          self.viol('C06', 'smoothing', 'outstanding total stayed within [%d, %d] for the last 30 s (all-time range [%d, %d]), but the smoothed load reads %.4f (load average %.4f x %d active)' % (
+              rlo, rhi, hist['lo'], hist['hi'], avg_, L, s0))
         if L >= a['max_load'] and idle0 and s0 < a['max_size']:
           want = s0 + 1
           self.flags.add('load_expand')
@@ -314,6 +344,7 @@ class LBRun(object):
     lb._AdjustAperture = adjust
     lb._ContractAperture = contract
     self.n_adjust = 0
+    self.load_samples = {'first': None, 'lo': 0, 'hi': 0, 'n': 0, 'minq': collections.deque(), 'maxq': collections.deque()}
 
   def check_gauges(self):
     lb = self.lb
@@ -483,12 +514,21 @@ class LBRun(object):
     members = self.model_members()
     before = dict((ch, ch.outstanding) for ch in self.chans.created)
     self.selection = None
+    open_before = set(n.channel for n in self.nodes() if n.channel.state == ChannelState.Open)
     try:
       self.lb.AsyncProcessRequest(st, msg, None, {})
     except Violation:
       raise
     except Exception as e:
       self.raised('dispatching a request', e)
+    if was_open and self.prop == 'C04':
+      # selecting a member re-examines every member that is marked down: one whose channel is Open is marked up
+      # again, so "already marked down" at a later removal can only be said of a member that really is down
+      for n in self.nodes():
+        if n.load >= 0 and n.channel in open_before and n.channel.state == ChannelState.Open:
+          self.flags.add('stale_down_mark')
+          self.viol('C04', 'stale-down-mark', '%r is Open and a request was just dispatched, yet the balancer still treats it as marked down (load %d)' % (
+              n.channel, n.load))
     if not was_open:
       self.flags.add('dispatch_before_open')
       return
@@ -741,6 +781,21 @@ class LBRun(object):
         settle()
         if self.lb_init_done() and self.ssp.q.empty():
           self.note_removals(before_live)
+      elif k == 'flap_pending':
+        # a server that flaps while the client is still connecting to it (generator guidance only: the endpoint is
+        # picked from the aperture's in-flight expansions; the oracle never looks at that set)
+        pend = sorted(getattr(self.lb, '_pending_endpoints', ()) or (), key=lambda e: e.port)
+        pend = [e for e in pend if e.port in self.ssp.members]
+        if pend and self.lb_init_done():
+          pi = pend[op[1] % len(pend)].port - PORT0
+          before_live = self.live_channels()
+          self.down_before = set(n.channel for n in self.nodes() if n.load >= 0)
+          self.op_leave(pi)
+          self.op_join(pi)
+          self.flags.add('flap_while_connecting')
+          settle()
+          if self.lb_init_done() and self.ssp.q.empty():
+            self.note_removals(before_live)
       elif k == 'advance':
         advance(op[1] / 1000.0)
       elif k == 'steady':
